@@ -45,7 +45,19 @@ func c03Gen(rt *rapid.T) c03Case {
 		cfg.MaxStmts = 10
 	}
 	db := model.NewDB()
-	c := c03Case{Stmts: gen.History(rt, cfg, db)}
+	var pre []model.Stmt
+	if rapid.IntRange(0, 4).Draw(rt, "manytables") == 0 {
+		// a catalog that no longer fits one page: victims that move a table's
+		// root log a catalog update addressed to a catalog LEAF
+		for k := rapid.IntRange(7, 11).Draw(rt, "ntables"); k > 0; k-- {
+			cr := gen.CreateStmt(rt, 3, db)
+			gen.MustApply(db, cr)
+			pre = append(pre, cr)
+		}
+		cfg.MaxTables = len(pre)
+		cfg.MinStmts = 6
+	}
+	c := c03Case{Stmts: append(pre, gen.History(rt, cfg, db)...)}
 	c.VictimPick = rapid.SliceOfN(rapid.IntRange(0, 1000), 1, 3).Draw(rt, "victims")
 	n := rapid.IntRange(1, 3).Draw(rt, "nafter")
 	for i := 0; i < n; i++ {
